@@ -61,6 +61,132 @@ def helpers(u):
     ]
 
 
+OY = ('opt', 'Y')
+
+
+def client_env(u):
+    """a Client whose send_request is replaced: the translated function is the client method's own code - building the request (the
+    stand-in raises Sent with the payload it is handed) or what it does with a positive response carrying the given data bytes"""
+    import symtrans as st
+    import udsoncan.client as uc
+    from udsoncan.connections import BaseConnection
+    from udsoncan import Response
+    from udsoncan.BaseService import BaseSubfunction
+
+    class Conn(BaseConnection):
+        def open(self): return self
+        def close(self): pass
+        def is_open(self): return True
+        def empty_rxqueue(self): pass
+        def specific_send(self, payload): raise st.Refuse('the connection was used')
+        def specific_wait_frame(self, timeout=2): raise st.Refuse('the connection was used')
+
+    # names looked up for log lines only (the text of log lines is not modelled)
+    class NameProxy:
+        def __init__(self, real):
+            self.__dict__['_real'] = real
+
+        def __getattr__(self, k):
+            return getattr(self._real, k)
+
+        def name_from_id(self, x):
+            return '<name>' if isinstance(x, st.SymInt) else self._real.name_from_id(x)
+    if not isinstance(uc.Routine, NameProxy):
+        uc.Routine = NameProxy(uc.Routine)
+        uc.DataIdentifier = NameProxy(uc.DataIdentifier)
+        real_get_name = BaseSubfunction.get_name.__func__
+        BaseSubfunction.get_name = classmethod(lambda cls, x: '<name>' if isinstance(x, st.SymInt) else real_get_name(cls, x))
+
+        class Hex:
+            @staticmethod
+            def hexlify(x):
+                import binascii
+                return b'<sym>' if isinstance(x, (st.SymBytes, st.SymSeq)) else binascii.hexlify(x)
+        uc.binascii = Hex
+
+    def mk(cfg=None):
+        return uc.Client(Conn(), config=dict(cfg or {}))
+
+    def request(call, cfg=None):
+        def f(*args):
+            c = mk(cfg)
+
+            def sr(req, timeout=-1):
+                raise st.Sent(req.get_payload())
+            c.send_request = sr
+            call(c, *args)
+            raise st.Refuse('the method returned without sending a request')
+        return f
+
+    def interpret(call, rsid, observe, cfg=None):
+        def f(*args):
+            c = mk(cfg)
+            data = args[-1]
+
+            def sr(req, timeout=-1):
+                return Response.from_payload(st.SymSeq([rsid]) + data)
+            c.send_request = sr
+            return observe(call(c, *args[:-1]))
+        return f
+    return request, interpret
+
+
+def opt(v):
+    return -1 if v is None else v
+
+
+def micro(v):
+    """a duration in seconds (the float a / k the code computed) as microseconds"""
+    if v is None:
+        return -1
+    if hasattr(v, 'micro'):
+        return v.micro()
+    return round(v * 1000000)
+
+
+def simple_services(u):
+    request, interpret = client_env(u)
+    D = ('seq', 4, 1)
+    def sd(*fields):
+        """observer: the named service_data fields, in the canonical rendering of the model (None -> -1, bytes -> length-prefixed)"""
+        def obs(r):
+            out = []
+            for f in fields:
+                kind, name = f if isinstance(f, tuple) else ('int', f)
+                v = getattr(r.service_data, name)
+                out.append(('bytes', v) if kind == 'bytes' else opt(v))
+            return out
+        return obs
+
+    def both(name, params, call, rsid, observe, cfg=None, dlen=4):
+        return [dict(name='fn_%s_request' % name, params=params, result='Y', call=request(call, cfg)),
+                dict(name='fn_%s_interpret' % name, params=params + [('d', ('seq', dlen, 1))], result='S', call=interpret(call, rsid, observe, cfg))]
+    L = []
+    L += both('ecu_reset', [('t', 'Z')], lambda c, t: c.ecu_reset(t), 0x51, sd('reset_type_echo', 'powerdown_time'))
+    L += both('routine_control', [('rid', 'Z'), ('ct', 'Z'), ('data', OY)], lambda c, rid, ct, data: c.routine_control(rid, ct, data), 0x71,
+              sd('control_type_echo', 'routine_id_echo', ('bytes', 'routine_status_record')))
+    L += both('tester_present', [], lambda c: c.tester_present(), 0x7E, sd('subfunction_echo'), dlen=2)
+    L += both('change_session', [('s', 'Z')], lambda c, s: c.change_session(s), 0x50,
+              lambda r: [r.service_data.session_echo, micro(r.service_data.p2_server_max), micro(r.service_data.p2_star_server_max),
+                         ('bytes', r.service_data.session_param_records)], dlen=6)
+    L += both('change_session_2006', [('s', 'Z')], lambda c, s: c.change_session(s), 0x50,
+              lambda r: [r.service_data.session_echo, opt(r.service_data.p2_server_max), opt(r.service_data.p2_star_server_max),
+                         ('bytes', r.service_data.session_param_records)], cfg={'standard_version': 2006}, dlen=3)
+    L += both('request_seed', [('level', 'Z'), ('data', 'Y')], lambda c, lv, data: c.request_seed(lv, data), 0x67,
+              lambda r: [r.service_data.security_level_echo, 1, ('bytes', r.service_data.seed)], dlen=3)
+    L += both('send_key', [('level', 'Z'), ('key', 'Y')], lambda c, lv, key: c.send_key(lv, key), 0x67,
+              lambda r: [r.service_data.security_level_echo, 0], dlen=3)
+    L += both('access_timing_parameter', [('atype', 'Z'), ('record', OY)], lambda c, at, rec: c.access_timing_parameter(at, rec), 0xC3,
+              sd('access_type_echo', ('bytes', 'timing_param_record')), dlen=3)
+    L += both('communication_control', [('ct', 'Z'), ('cty', 'Z'), ('node', ('opt', 'Z'))], lambda c, ct, cty, node: c.communication_control(ct, cty, node), 0x68,
+              sd('control_type_echo'), dlen=2)
+    L += both('transfer_data', [('seq', 'Z'), ('data', OY)], lambda c, seq, data: c.transfer_data(seq, data), 0x76,
+              sd('sequence_number_echo', ('bytes', 'parameter_records')), dlen=3)
+    L += both('control_dtc_setting', [('st', 'Z'), ('data', OY)], lambda c, t, data: c.control_dtc_setting(t, data), 0xC5, sd('setting_type_echo'), dlen=2)
+    L += both('clear_dtc', [('group', 'Z'), ('memsel', ('opt', 'Z'))], lambda c, g, m: c.clear_dtc(g, m), 0x54, lambda r: [], dlen=2)
+    return L
+
+
 def pick(names):
     return lambda u: [sp for sp in helpers(u) if sp['name'] in names]
 
@@ -71,4 +197,8 @@ def files(u):
              pick(['fn_autosize_address', 'fn_autosize_memorysize', 'fn_alfid_byte', 'fn_addr_bytes', 'fn_size_bytes', 'fn_memloc_formats'])),
             ('Fn_Codecs.v', 'udsoncan/common/CommunicationType.py, DataFormatIdentifier.py, AddressAndLengthFormatIdentifier.py, Baudrate.py',
              pick(['fn_alfid_byte', 'fn_commtype_byte', 'fn_commtype_from_byte', 'fn_dfi_byte', 'fn_dfi_from_byte', 'fn_baud', 'fn_baud_bytes', 'fn_baud_effective'])),
-            ('Fn_Filesize.v', 'udsoncan/common/Filesize.py', pick(['fn_filesize_width']))]
+            ('Fn_Filesize.v', 'udsoncan/common/Filesize.py', pick(['fn_filesize_width'])),
+            ('Fn_SimpleReq.v', 'udsoncan/client.py (the methods up to the call of send_request), udsoncan/services/*.py, Request.py',
+             lambda u: [sp for sp in simple_services(u) if sp['name'].endswith('_request')]),
+            ('Fn_SimpleInt.v', 'udsoncan/client.py (the methods, send_request replaced by a positive response with the given data), udsoncan/services/*.py, Response.py',
+             lambda u: [sp for sp in simple_services(u) if sp['name'].endswith('_interpret')])]
